@@ -639,15 +639,27 @@ Definition equals_step (r : efns) (order : list str -> list str) (a0 b0 : value)
            else if known_and_false e then Ok v_false
            else go l'
        end) pairs in
+  (* objects (and maps below): a known inequality wins over an unknown comparison, so the
+     answer does not depend on the visiting order (fix: commit in /repo) *)
+  let members_ou (pairs : list (value * value)) (saw0 : bool) : res value :=
+    (fix go (l : list (value * value)) (saw : bool) : res value :=
+       match l with
+       | [] => Ok (if saw then unk_not_null else v_true)
+       | xy :: l' =>
+           do e <- r.(e_equals) (fst xy) (snd xy);
+           if negb (is_known e) then go l' true
+           else if known_and_false e then Ok v_false
+           else go l' saw
+       end) pairs saw0 in
   match t, vp a, vp b with
   | TNum, PNum x _, PNum y _ => Ok (v_bool (raw_number_equal x y))
   | TBool, PBool x, PBool y => Ok (v_bool (Bool.eqb x y))
   | TStr, PStr x, PStr y => Ok (v_bool (str_eqb x y))
   | TObj attrs _, PMap ma, PMap mb =>
-      members (flat_map (fun k => match lookup k attrs, lookup k ma, lookup k mb with
-                                  | Some ta, Some x, Some y => [(V ta x, V ta y)]
-                                  | _, _, _ => []
-                                  end) (order (keys attrs)))
+      members_ou (flat_map (fun k => match lookup k attrs, lookup k ma, lookup k mb with
+                                     | Some ta, Some x, Some y => [(V ta x, V ta y)]
+                                     | _, _, _ => []
+                                     end) (order (keys attrs))) false
   | TTuple es, PSeq la, PSeq lb =>
       members (map (fun '(te, (x, y)) => (V te x, V te y)) (combine es (combine la lb)))
   | TList e, PSeq la, PSeq lb =>
@@ -676,19 +688,19 @@ Definition equals_step (r : efns) (order : list str -> list str) (a0 b0 : value)
       end
   | TMap e, PMap ma, PMap mb =>
       if Nat.eqb (length ma) (length mb) then
-        (fix go (l : list str) : res value :=
+        (fix go (l : list str) (saw : bool) : res value :=
            match l with
-           | [] => Ok v_true
+           | [] => Ok (if saw then unk_not_null else v_true)
            | k :: l' =>
                match lookup k ma, lookup k mb with
                | Some x, Some y =>
                    do e' <- r.(e_equals) (V e x) (V e y);
-                   if negb (is_known e') then Ok unk_not_null
+                   if negb (is_known e') then go l' true
                    else if known_and_false e' then Ok v_false
-                   else go l'
+                   else go l' saw
                | _, _ => Ok v_false
                end
-           end) (order (keys ma))
+           end) (order (keys ma)) false
       else Ok v_false
   | TCap _, PCap x, PCap y => Ok (v_bool (N.eqb x y))
   | _, _, _ => Panic
